@@ -462,11 +462,18 @@ impl Range {
         let mut predicates = Vec::new();
 
         for lefty in &self.0 {
+            // what is left of `lefty` after removing every alternative of `other`
+            let mut remainders = vec![lefty.clone()];
             for righty in &other.0 {
-                if let Some(mut range) = lefty.difference(righty) {
-                    predicates.append(&mut range)
+                let mut next = Vec::new();
+                for piece in &remainders {
+                    if let Some(mut range) = piece.difference(righty) {
+                        next.append(&mut range)
+                    }
                 }
+                remainders = next;
             }
+            predicates.append(&mut remainders)
         }
 
         if predicates.is_empty() {
